@@ -403,19 +403,23 @@ def selftest(ctx) -> None:
     assert set(c.failures) == {"C23:tunnel:out-of-order:acked", "C23:tunnel:out-of-order:passed-up", "C23:tunnel:expected:not-acked", "C23:tunnel:expected:not-passed-up"}, set(c.failures)
 
 
+def _job(ctx, what: str, *args) -> None:
+    """One fork pool for everything (forking is the expensive part on a busy box)."""
+    {"enum": _enum_shard, "wrap": _wrap_shard, "hyp": _hyp_shard}[what](ctx, *args)
+
+
 def run(ctx) -> None:
     L0 = ctx.n(4, 6)
     L254 = ctx.n(2, 4)
-    jobs = []
-    for length in range(1, L0 + 1):
+    jobs: list[tuple] = [("wrap", c, ar, v) for c, ar in VARIANTS for v in range(4)]
+    jobs += [("hyp", ctx.n(100, 2500))] * 16
+    for length in range(L0, 0, -1):
         for first in SYMS:
-            jobs.append((length, first, 0))
-    for length in range(1, L254 + 1):
+            jobs.append(("enum", length, first, 0))
+    for length in range(L254, 0, -1):
         for first in SYMS:
-            jobs.append((length, first, 254))
-    parallel(ctx, _enum_shard, jobs)
-    parallel(ctx, _wrap_shard, [(c, ar, v) for c, ar in VARIANTS for v in range(4)])
-    parallel(ctx, _hyp_shard, [(ctx.n(100, 2500),)] * 16)
+            jobs.append(("enum", length, first, 254))
+    parallel(ctx, _job, jobs)
     ctx.exhaustive = False
     ctx.notes["enumerated_symbol_sequences_up_to"] = {"from_expected_0": L0, "from_expected_254": L254}
 
